@@ -21,6 +21,7 @@ CHECK = {
     ],
     "opts": {"unwind": 6, "substitute": SUB, "feasibility": False, "fresh_solver": True},
     "stop": [k for k in SUB.keys() if k.startswith("(*" + P)],
+    "timeout_ms": {"quick": 400000, "thorough": 1800000},
     "explanation": "TODO",
     "bounds": {},
 }
